@@ -3,7 +3,7 @@
    statements are about (Region1D_*, Region2D_*, x0x1_after_extraction, region_after_extraction,
    rotate_*_via_roe_corner_from) are GENERATED from /repo by py2v on every run. *)
 From Coq Require Import ZArith List Bool.
-From PAV Require Import Base.Res Gen.Gen_layout Model.C19 Proofs.C19.
+From PAV Require Import Base.Res Gen.Gen_layout Model.C19 Model.C19x Proofs.C19 Proofs.C19h.
 Import ListNotations.
 Local Open Scope Z_scope.
 
@@ -80,6 +80,52 @@ Theorem C19_serial_towards_roe : forall y0 y1 x0 x1 sh a b,
   Region2D_serial_towards_roe_full_region_from (y0, y1, x0, x1) sh (a, b) = want2 (0, fst sh, x0 + a, x0 + b).
 Proof. exact ser_roe_full. Qed.
 
+(* ---- in-place writes through a region (array[region.slice] = v) ---- *)
+(* the slice assignment changes exactly the pixels of the region *)
+Theorem C19_write_is_pixelwise : forall (A : Type) (m : list (list A)) r v,
+  valid2b r = true -> fill2 m r v = fill_spec m r v.
+Proof. exact @fill2_valid_spec. Qed.
+(* writing through the region and rotating = rotating and writing through the rotated region *)
+Theorem C19_write_rotate_commute : forall (A : Type) (m : list (list A)) H W r c v,
+  rectb H W m = true -> inside2b (H, W) r = true -> cornerb c = true ->
+  rot_array_spec (fill2 m r v) c = fill2 (rot_array_spec m c) (rot_region_spec r (H, W) c) v.
+Proof. exact @write_rotate_commute. Qed.
+(* what was written through a region is what the region reads back *)
+Theorem C19_write_then_slice : forall (A : Type) (m : list (list A)) H W r v,
+  rectb H W m = true -> inside2b (H, W) r = true ->
+  slice2 (fill2 m r v) r = map (map (fun _ => v)) (slice2 m r).
+Proof. exact @slice2_fill2_same. Qed.
+
+(* ---- histories on ONE array object (model: Model.C19x.arun over the generated rotation) ----
+   whatever came before -- reads, edits of returned arrays, copies, earlier writes, corner changes -- a read returns the
+   rotation of the CURRENT contents for the CURRENT corner, a slice the current content of the region *)
+Theorem C19_history_read_is_rotation_of_current_contents : forall pre post m c last,
+  nth_error (arun (pre ++ ARead :: post) m c last) (nobs pre) =
+  Some (rotate_array_via_roe_corner_from (mwrites pre m) (acorner pre c)).
+Proof. exact hist_read_current. Qed.
+Theorem C19_history_slice_is_current_content : forall pre post r m c last,
+  nth_error (arun (pre ++ ASlice r :: post) m c last) (nobs pre) = Some (Some (slice2 (mwrites pre m) r)).
+Proof. exact hist_slice_current. Qed.
+Theorem C19_history_contents : forall s pre m,
+  forallb (astep_okb s) pre = true -> mwrites pre m = awrites pre m.
+Proof. exact mwrites_awrites. Qed.
+(* every observation of the model run satisfies the independent specification of histories *)
+Theorem C19_history_model_meets_spec : forall m0 c0 steps,
+  ahist_okb m0 c0 steps = true -> aspec_from steps 0 steps m0 c0 None (arun steps m0 c0 None) = true.
+Proof. exact hist_model_meets_spec. Qed.
+
+(* ---- whole layouts (hand model of Layout2D.new_rotated_from / layout_extracted_from over the generated functions) ---- *)
+Theorem C19_layout_rotate_is_spec : forall l c,
+  lay_insideb l = true -> cornerb c = true -> lay_rot l c = Ok (lay_rot_spec l c).
+Proof. exact lay_rot_ok. Qed.
+Theorem C19_layout_extract_is_spec : forall l e,
+  lay_validb l = true -> valid2b e = true -> lay_ext l e = Ok (lay_ext_spec l e).
+Proof. exact lay_ext_ok. Qed.
+Theorem C19_layout_rotate_twice : forall l c,
+  lay_insideb l = true -> cornerb c = true ->
+  rbind (lay_rot l c) (fun l' => lay_rot l' c) = Ok (let '(s, c0, po, sp, so) := l in (s, c, po, sp, so)).
+Proof. exact lay_rot_twice_model. Qed.
+
 (* non-vacuity: the hypotheses are met by concrete non-trivial inputs *)
 Example C19_hyps_satisfiable :
   rectb 3 4 [[1;2;3;4];[5;6;7;8];[9;10;11;12]] = true /\ inside2b (3, 4) (1, 3, 0, 2) = true /\ cornerb (0, 1) = true
@@ -88,6 +134,23 @@ Example C19_hyps_satisfiable :
   /\ valid2b (2, 6, 1, 4) = true /\ overlap2 (2, 6, 1, 4) (5, 7, 0, 2) = Some (0, 1, 1, 2).
 Proof. vm_compute. repeat split. Qed.
 
+Example C19_history_hyps_satisfiable :
+  let m := [[1;2;3;4];[5;6;7;8];[9;10;11;12]] in
+  let steps := [ARead; AWrite (1, 3, 0, 2) 0; AEditOut (0, 1, 0, 1) 7; ALast; ACorner (0, 0); ADerive; ASlice (0, 2, 1, 3); ARead] in
+  ahist_okb m (0, 1) steps = true
+  /\ arun steps m (0, 1) None =
+     [Some [[12;11;10;9];[8;7;6;5];[4;3;2;1]]; Some [[7;11;10;9];[8;7;6;5];[4;3;2;1]]; Some [[7;11;10;9];[8;7;6;5];[4;3;2;1]];
+      Some [[2;3];[0;7]]; Some [[0;0;11;12];[0;0;7;8];[1;2;3;4]]]
+  /\ lay_insideb ((3, 4), (1, 0), Some (1, 3, 0, 2), None, Some (0, 1, 3, 4)) = true
+  /\ lay_validb ((3, 4), (1, 0), Some (1, 3, 0, 2), None, Some (0, 1, 3, 4)) = true
+  /\ lay_rot ((3, 4), (1, 0), Some (1, 3, 0, 2), None, Some (0, 1, 3, 4)) (0, 1)
+     = Ok ((3, 4), (0, 1), Some (0, 2, 2, 4), None, Some (2, 3, 0, 1)).
+Proof. vm_compute. repeat split. Qed.
+
+Print Assumptions C19_write_is_pixelwise. Print Assumptions C19_write_rotate_commute. Print Assumptions C19_write_then_slice.
+Print Assumptions C19_history_read_is_rotation_of_current_contents. Print Assumptions C19_history_slice_is_current_content.
+Print Assumptions C19_history_contents. Print Assumptions C19_history_model_meets_spec.
+Print Assumptions C19_layout_rotate_is_spec. Print Assumptions C19_layout_extract_is_spec. Print Assumptions C19_layout_rotate_twice.
 Print Assumptions C19_region1d_validation. Print Assumptions C19_region2d_validation.
 Print Assumptions C19_rotate_array_is_spec. Print Assumptions C19_rotate_region_is_spec.
 Print Assumptions C19_rotate_commutes. Print Assumptions C19_rotate_array_twice.
